@@ -355,20 +355,15 @@ theorem perase_wf (t : PTier Int) (a b : Int) (sh : Bool) (t' : PTier Int)
     | error e => simp [hc] at h
     | ok ct =>
       simp only [hc] at h
-      split at h
-      · simp only [pure, Except.pure, Except.ok.injEq] at h; subst h; exact hnt
-      · cases hd : ct.ps.reverse.foldlM deletePt nt.ps with
-        | error e => simp [hd] at h
-        | ok ps0 =>
-          simp only [hd] at h
-          cases sh with
-          | true =>
-            simp only [if_true] at h
-            exact pnew_wf _ _ _ _ _ t' h
-          | false =>
-            simp only [Bool.false_eq_true, if_false, pure, Except.pure, Except.ok.injEq] at h
-            subst h
-            exact wf_of_sublist nt hnt ps0 (foldlM_deletePt_sublist _ _ _ hd)
+      cases hd : ct.ps.reverse.foldlM deletePt nt.ps with
+      | error e => simp [hd] at h
+      | ok ps0 =>
+        simp only [hd] at h
+        split at h
+        · exact pnew_wf _ _ _ _ _ t' h
+        · simp only [pure, Except.pure, Except.ok.injEq] at h
+          subst h
+          exact wf_of_sublist nt hnt ps0 (foldlM_deletePt_sublist _ _ _ hd)
 
 theorem foldlM_pinsert_wf (es : List (Pt Int)) (m : InsMode) (t : PTier Int) (hwf : t.WF) (r : PTier Int)
     (h : es.foldlM (fun acc e => acc.insertEntry e m) t = .ok r) : r.WF := by
@@ -659,12 +654,8 @@ theorem perase_err (t : PTier Int) (hwf : t.WF) (a b : Int) (sh : Bool) (e : Err
     rw [hc] at h
     simp only [hd] at h
     split at h
+    · exact pnew_not_err _ _ _ _ _ _ h
     · simp [pure, Except.pure] at h
-    · cases sh with
-      | false => simp [pure, Except.pure] at h
-      | true =>
-        simp only [if_true] at h
-        exact pnew_not_err _ _ _ _ _ _ h
   · rw [C07.perase_rejects t hwf a b sh (by omega)] at h
     simp only [Except.error.injEq] at h
     exact ⟨h.symm, by omega⟩
